@@ -29,6 +29,8 @@ type group struct {
 	obool func(o *oenv, T types.Type) bool
 	ostr  func(o *oenv, s *site) string
 	osugg func(o *oenv, s *site) string // expected suggestion text (Do groups); nil = no suggestion expected
+	// osuggOpt: a suggestion is expected at some sites only
+	osuggOpt func(o *oenv, s *site) (string, bool)
 }
 
 func (g *group) sized() bool { return strings.Contains(g.name, "size") }
